@@ -773,6 +773,13 @@ class H2Connection:
 
         # Check we can open the stream.
         if stream_id not in self.streams:
+            # Only clients open streams with HEADERS: a server's own (even)
+            # stream IDs come into existence through push_stream only.
+            if not self.config.client_side and stream_id % 2 == 0:
+                raise ProtocolError(
+                    "Servers cannot open streams by sending headers."
+                )
+
             max_open_streams = self.remote_settings.max_concurrent_streams
             if (self.open_outbound_streams + 1) > max_open_streams:
                 raise TooManyStreamsError(
